@@ -35,6 +35,15 @@ def jobs(tier):
             js.append({'name': 'needed vs build 2 lines first=%s pre_out=%d' % (f, pl), 'harness': (H, 'h_hermetic'),
                        'params': {'nlines': 2, 'menu_name': 'small', 'fixed': [f], 'pre_out_len': pl, 'pre_temp_len': None,
                                   'mode_a': 'InMemoryBuild', 'mode_b': 'Build', 'clean_b': False, 'norewrite': True}})
+    # the only-if-needed mode next to decoy files at near-miss names (a.tmp, a.txt.bak ...): what it writes, it writes to its own paths
+    for sc in (['text'], ['temp', 'cont prefix'], ['include f']):
+        for pl in (None, 2):
+            js.append({'name': 'needed-build touches only its own paths %s pre_out=%s' % ('/'.join(sc), pl), 'harness': ('props.fsprops', 'h_paths'),
+                       'params': {'nlines': len(sc), 'menu_name': 'small', 'mode': 'InMemoryBuild', 'fixed': sc, 'pre_out_len': pl}})
+    for total in (8192, 16384):
+        for tr in (True, False):
+            js.append({'name': 'needed-build: fresh output of exactly %d bytes over a longer older one (trailing=%s)' % (total, tr),
+                       'harness': ('props.fsprops', 'h_exact_size'), 'params': {'total': total, 'mode': 'InMemoryBuild', 'trailing': tr}, 'max_steps': 8_000_000})
     from . import project
     js += project.jobs('C09', tier)
     return js
@@ -55,6 +64,9 @@ def finding_key(v, detail):
 
 def replay(native, v):
     d = v['data']
+    if 'mode_a' not in d and d.get('mode') and 'faults' in d:
+        from . import c10                 # counterexamples of the own-paths monitor (h_paths) are replayed by C10's judge
+        return c10.replay(native, v)
     model = d['model']
     ma, mb = MODE_ARGS[d.get('mode_a', 'InMemoryBuild')], MODE_ARGS[d.get('mode_b', 'Build')]
     import os
